@@ -1636,6 +1636,7 @@ fn read_voice(cur: &mut SourceCursor, song: &mut Song) -> Token {
 
 fn read_length(cur: &mut SourceCursor, song: &mut Song) -> Token {
     if cur.eq_char('.') {
+        let dot_index = cur.index;
         cur.next(); // skip '.'
         let cmd = cur.get_word();
         if cmd == "Random" {
@@ -1654,6 +1655,8 @@ fn read_length(cur: &mut SourceCursor, song: &mut Song) -> Token {
             let av = read_arg_int_array(cur, song);
             return Token::new(TokenType::LengthOnCycle, 0, vec![av]);
         }
+        // not a reservation: the dot belongs to the length ("l." = the dotted default length)
+        cur.index = dot_index;
     }
     let s = cur.get_note_length();
     Token::new(TokenType::Length, 0, vec![SValue::from_s(s)])
